@@ -4,9 +4,17 @@
 A database is its `user_version` plus, for every v1 schema object, either `none` (absent) or
 `some rows` (present, with its rows; the index carries `[]`).  The opener only ever looks at object
 *names* (`tableExists` / `indexExists`), stamps `user_version`, and runs the embedded migration DDL
-inside one transaction.  Everything the Go code consults that is data rather than control flow
-(`schemaVersion`, the inspected object lists, the migration list with its `CREATE … [IF NOT EXISTS]`
-statements, the tables referenced by the prepared statements) is a field of `Facts`, which
+inside one transaction.  A migration script can fail part-way: SQLite keeps tables and indexes in one
+name space, so `CREATE TABLE [IF NOT EXISTS] x` fails ("there is already an index named x") when a
+*foreign index* carries the name `x`, and `CREATE INDEX [IF NOT EXISTS] x` fails ("there is already a
+table named x") when a *foreign table* does — whatever `IF NOT EXISTS` says, and invisibly to
+`tableExists` / `indexExists`, which filter on the object type.  `clash o` records such a foreign
+object of the other kind occupying the name of the v1 object `o`.  The statements of the script that
+ran before the failing one have already taken effect at that point; whether they stay in the file is
+decided by `applyMigration` (transaction + rollback, fact `txMigration`).  Everything the Go code
+consults that is data rather than control flow (`schemaVersion`, the inspected object lists, the
+migration list with its `CREATE … [IF NOT EXISTS]` statements, the tables referenced by the prepared
+statements, whether `applyMigration` is transactional) is a field of `Facts`, which
 `Gen.lean` instantiates from the source on every run.  Core Lean only.
 -/
 namespace Specter.C24
@@ -31,11 +39,17 @@ structure Facts where
   anyObjs : List Obj             -- objects schemaHasAnyV1Objects looks for (any of them)
   migrations : List Mig          -- loadMigrations(): sorted, validated 1..n
   prepared : List Obj            -- tables referenced by the statements prepareStatements prepares
+  txMigration : Bool             -- applyMigration: script and version stamp run on one `tx` (Begin … Commit,
+                                 -- Rollback on error) rather than statement by statement on the handle
 deriving Repr
 
 structure Db (ρ : Type) where
   uv : Int                               -- PRAGMA user_version (signed 32 bit in SQLite)
   tab : Obj → Option (List ρ)
+  /-- a foreign object of the *other* kind (an index for a v1 table name, a table for the v1 index
+  name) occupies this name.  SQLite never lets `clash o` and `tab o ≠ none` hold together; the
+  functions below look at `tab` first, as `sqlite3StartTable` / `sqlite3CreateIndex` do. -/
+  clash : Obj → Bool := fun _ => false
 
 inductive Outcome where
   | ok | refuse
@@ -54,31 +68,39 @@ def looksLikeV1 (F : Facts) (db : Db ρ) : Bool := F.looksObjs.all (present db)
 /-- `schemaHasAnyV1Objects`: some inspected name exists. -/
 def hasAnyV1 (F : Facts) (db : Db ρ) : Bool := F.anyObjs.any (present db)
 
-/-- one `CREATE [IF NOT EXISTS]` statement; `none` = SQL error "already exists" -/
+/-- one `CREATE [IF NOT EXISTS]` statement; `none` = SQL error: "already exists" (same kind, no
+`IF NOT EXISTS`) or "there is already an index/a table named …" (other kind, always an error) -/
 def create (db : Db ρ) (c : Obj × Bool) : Option (Db ρ) :=
   if present db c.1 then (if c.2 then some db else none)
+  else if db.clash c.1 then none
   else some { db with tab := upd db.tab c.1 (some []) }
 
-def createAll : List (Obj × Bool) → Db ρ → Option (Db ρ)
-  | [], db => some db
+/-- a multi-statement script executed statement by statement: `(true, db')` when every statement
+succeeded, `(false, db')` with the state reached *when the failing statement was hit* otherwise. -/
+def execScript : List (Obj × Bool) → Db ρ → Bool × Db ρ
+  | [], db => (true, db)
   | c :: cs, db => match create db c with
-    | none => none
-    | some db' => createAll cs db'
+    | none => (false, db)
+    | some db' => execScript cs db'
 
-/-- `applyMigration`: DDL and `PRAGMA user_version` in one transaction; an error rolls everything back
-(`none`). -/
-def applyMigration (db : Db ρ) (m : Mig) : Option (Db ρ) :=
-  (createAll m.creates db).map fun db' => { db' with uv := m.version }
+/-- `applyMigration`: `(true, db')` = script ran and `user_version` stamped.  On an error the result
+is the database as it is left behind: with `txMigration` the script and the stamp run on one
+transaction that is rolled back, so nothing of the partial script survives; without it every statement
+that succeeded before the error has been committed on its own. -/
+def applyMigration (F : Facts) (db : Db ρ) (m : Mig) : Bool × Db ρ :=
+  match execScript m.creates db with
+  | (true, db') => (true, { db' with uv := m.version })
+  | (false, db') => (false, if F.txMigration then db else db')
 
 /-- the migration loop of `migrate`; `uv` is the *local variable* of the Go code (it is not refreshed
 inside the loop). -/
-def runMigrations (uv : Int) : List Mig → Db ρ → Outcome × Db ρ
+def runMigrations (F : Facts) (uv : Int) : List Mig → Db ρ → Outcome × Db ρ
   | [], db => (.ok, db)
   | m :: ms, db =>
-    if m.version ≤ uv then runMigrations uv ms db
-    else match applyMigration db m with
-      | none => (.refuse, db)
-      | some db' => runMigrations uv ms db'
+    if m.version ≤ uv then runMigrations F uv ms db
+    else match applyMigration F db m with
+      | (false, db') => (.refuse, db')
+      | (true, db') => runMigrations F uv ms db'
 
 def latest (F : Facts) : Int :=
   match F.migrations.getLast? with
@@ -92,10 +114,10 @@ def migrate (F : Facts) (db : Db ρ) : Outcome × Db ρ :=
   else if db.uv = 0 then
     if looksLikeV1 F db then
       -- legacy: `setUserVersion(db, schemaVersion)` outside any transaction, then the loop with uv = schemaVersion
-      runMigrations F.schemaVersion F.migrations { db with uv := F.schemaVersion }
+      runMigrations F F.schemaVersion F.migrations { db with uv := F.schemaVersion }
     else if hasAnyV1 F db then (.refuse, db)
-    else runMigrations 0 F.migrations db
-  else runMigrations db.uv F.migrations db
+    else runMigrations F 0 F.migrations db
+  else runMigrations F db.uv F.migrations db
 
 /-- `prepareStatements` fails iff a referenced table does not exist. -/
 def prepare (F : Facts) (db : Db ρ) : Bool := F.prepared.all (present db)
@@ -110,12 +132,19 @@ def openDb (F : Facts) (db : Db ρ) : Outcome × Db ρ :=
 def maskOf (db : Db ρ) : Nat :=
   (Obj.all.zipIdx.map fun (o, i) => if present db o then 2 ^ i else 0).sum
 
-def ofMask (uv : Int) (mask : Nat) (rows : List Nat) : Db Nat :=
+def objIdx : Obj → Nat
+  | .keyTrackers => 0 | .simpleEntries => 1 | .prefixEntries => 2 | .leaseEntries => 3 | .idxHash => 4
+
+def bit (mask i : Nat) : Bool := mask / 2 ^ i % 2 = 1
+
+/-- `coll` bit i = a foreign object of the other kind carries the name of object i -/
+def ofMask (uv : Int) (mask : Nat) (rows : List Nat) (coll : Nat := 0) : Db Nat :=
   { uv := uv
-    tab := fun o =>
-      let i := match o with
-        | .keyTrackers => 0 | .simpleEntries => 1 | .prefixEntries => 2 | .leaseEntries => 3 | .idxHash => 4
-      if mask / 2 ^ i % 2 = 1 then some (List.range (rows.getD i 0)) else none }
+    tab := fun o => if bit mask (objIdx o) then some (List.range (rows.getD (objIdx o) 0)) else none
+    clash := fun o => bit coll (objIdx o) }
+
+def collOf (db : Db ρ) : Nat :=
+  (Obj.all.zipIdx.map fun (o, i) => if db.clash o then 2 ^ i else 0).sum
 
 def rowCounts (db : Db ρ) : List Nat := Obj.tables.map fun o => ((db.tab o).getD []).length
 
